@@ -1,6 +1,8 @@
 package engine
 
 import (
+	"bytes"
+
 	"github.com/cockroachdb/pebble"
 	"github.com/youzan/ZanRedisDB/common"
 )
@@ -58,7 +60,13 @@ func (it *pebbleIterator) Seek(key []byte) {
 	it.Iterator.SeekGE(key)
 }
 
+// SeekForPrev moves to the last key that is less than or equal to the target key
+// (same as rocksdb SeekForPrev). pebble only has SeekLT, which would skip the target
+// key itself, so check whether the target exists first.
 func (it *pebbleIterator) SeekForPrev(key []byte) {
+	if it.Iterator.SeekGE(key) && bytes.Equal(it.Iterator.Key(), key) {
+		return
+	}
 	it.Iterator.SeekLT(key)
 }
 
